@@ -67,7 +67,7 @@ def _callee(ctx: Ctx, f: Func, call: ast.Call) -> Optional[Func]:
     return None
 
 
-def _instantiate(ctx: Ctx, f: Func, call: ast.Call, want_value: bool, allow_yield: bool = False) -> Optional[List[ast.stmt]]:
+def _instantiate(ctx: Ctx, f: Func, call: ast.Call, want_value: bool, allow_yield: bool = False, allow_rebound_params: bool = True) -> Optional[List[ast.stmt]]:
     """Body of the callee with its parameters replaced by the call's arguments, or None."""
     m = _callee(ctx, f, call)
     if m is None or m is f or m.node is f.node:
@@ -78,7 +78,9 @@ def _instantiate(ctx: Ctx, f: Func, call: ast.Call, want_value: bool, allow_yiel
     binding = bind_call(m, call, bound=bound)
     if binding is None:
         return None
-    if set(binding) & _stores(m.node):
+    # a parameter the callee re-binds (`ports = list(set(ports))`) becomes a local of its own, initialised with the argument
+    rebound = set(binding) & _stores(m.node)
+    if rebound and not allow_rebound_params:
         return None
     # an argument that is not a plain name / constant is evaluated once, before the body, into a temporary (same order)
     hoisted: List[ast.stmt] = []
@@ -98,8 +100,14 @@ def _instantiate(ctx: Ctx, f: Func, call: ast.Call, want_value: bool, allow_yiel
     callee_locals = _stores(m.node)
     rename: Dict[str, ast.AST] = {}
     for name in callee_locals:
+        if name in rebound:
+            continue
         if name in caller_names:
             rename[name] = name + "__i"
+    for name in sorted(rebound):
+        new_name = name + "__p"
+        hoisted.append(ast.Assign(targets=[ast.Name(id=new_name, ctx=ast.Store())], value=binding.pop(name), lineno=getattr(call, "lineno", 1), col_offset=0))
+        rename[name] = new_name
     body = clone(_strip_doc(list(m.node.body)))
     if not want_value:
         # value-less helper: only bare `return` as last statement tolerated
